@@ -1,7 +1,9 @@
 import PnaVerif.Model.Cli.Edit
+import PnaVerif.Model.Canon
 import PnaVerif.Model.Cli.Update
 import PnaVerif.Model.Cli.List
 import PnaVerif.Model.Cli.Extract
+import PnaVerif.Model.Cli.Create
 /- Wire format of logical archives for the driver protocol (mirror of harness/src/cli.rs). -/
 namespace Pna.Cli.Wire
 open Pna Pna.Cli
@@ -242,6 +244,29 @@ def handleExtract (toks : List String) : String :=
         | some _ => "err"
       res ++ " " ++ fsDump fs' cwdP
     | _, _, _, _ => "bad-op"
+  | _ => "bad-op"
+
+def tnodes? (s : String) : Option (List TNode) :=
+  if s == "." then some [] else
+    (s.splitOn ";").mapM fun t =>
+      match t.splitOn "," with
+      | [p, k, c, m, mt] => do
+        let p ← ofHex p; let k ← k.toNat?; let c ← ofHex c; let m ← m.toNat?; let mt ← mt.toNat?
+        pure ⟨p, k, c, m, mt⟩
+      | _ => none
+
+/-- `tree.expected <keepDir><ktC><kpC><ktX><kpX> <nodes>` → sorted expected nodes -/
+def handleTree (toks : List String) : String :=
+  match toks with
+  | [flags, nodes] =>
+    match flags.toList, tnodes? nodes with
+    | [kd, ktc, kpc, ktx, kpx], some t =>
+      let xs := expectedTree ⟨kd == '1', ktc == '1', kpc == '1', ktx == '1', kpx == '1'⟩ t
+      let sorted := xs.toArray.qsort (fun a b => bytesLt a.path b.path) |>.toList
+      if sorted.isEmpty then "ok ." else
+      "ok " ++ ";".intercalate (sorted.map fun x =>
+        s!"{toHexW x.path},{x.kind},{Canon.digest x.content},{optNatS x.mode},{optNatS x.mtime}")
+    | _, _ => "bad-op"
   | _ => "bad-op"
 
 end Pna.Cli.Wire
